@@ -251,10 +251,12 @@ fn build_db(list: Vec<(String, u8)>, n_primary_texts: usize, mutant_cap: usize) 
     // bucket (shortest first) for the bucket-wise legs; all of them stay in the mutation leg.
     for b in buckets.iter_mut() {
         let (mut prim, mut muts): (Vec<u32>, Vec<u32>) = b.texts.iter().partition(|&&t| (t as usize) < n_primary_texts);
-        muts.sort_by_key(|&t| (texts[t as usize].rank, texts[t as usize].s.len(), t));
+        let key = |t: u32| (texts[t as usize].rank, texts[t as usize].s.len(), texts[t as usize].s.as_str());
+        muts.sort_by(|&x, &y| key(x).cmp(&key(y)));
         muts.truncate(mutant_cap);
         prim.extend(muts);
-        prim.sort_by_key(|&t| (texts[t as usize].rank, t));
+        // tier-independent order: quick-tier texts first, then shortest first
+        prim.sort_by(|&x, &y| key(x).cmp(&key(y)));
         b.texts = prim;
     }
     Db { texts, buckets, shapes, n_flats: fidx.len() }
@@ -287,13 +289,23 @@ impl Acc {
             if mask & (1 << bit) != 0 {
                 let g = self.groups.entry((bit as u8, sa, sb)).or_insert(Group { count: 0, best: cand });
                 g.count += 1;
-                if cand < g.best {
+                if better(db, cand, g.best) {
                     g.best = cand;
                 }
             }
         }
     }
 
+}
+
+/// Tier-independent preference between two example pairs of one group: quick-tier texts first,
+/// then shortest, then by the texts themselves.
+fn better(db: &Db, x: (u8, u32, u32, u32), y: (u8, u32, u32, u32)) -> bool {
+    if (x.0, x.1) != (y.0, y.1) {
+        return (x.0, x.1) < (y.0, y.1);
+    }
+    let t = |i: u32| db.texts[i as usize].s.as_str();
+    (t(x.2), t(x.3)) < (t(y.2), t(y.3))
 }
 
 fn expect(db: &Db, i: u32, j: u32) -> bool {
@@ -322,7 +334,7 @@ fn check_pair(db: &Db, i: u32, j: u32, acc: &mut Acc) -> u16 {
 }
 
 /// Run `f(unit, acc)` for every unit, striding the units over worker chunks.
-fn run_units<U: Sync, F: Fn(&U, &mut Acc) + Sync>(units: &[U], f: F) -> Acc {
+fn run_units<U: Sync, F: Fn(&U, &mut Acc) + Sync>(db: &Db, units: &[U], f: F) -> Acc {
     let chunks = (ncpu() * 8).max(1);
     let ids: Vec<usize> = (0..chunks).collect();
     let accs = par_map(&ids, ncpu(), |_, &c| {
@@ -336,12 +348,12 @@ fn run_units<U: Sync, F: Fn(&U, &mut Acc) + Sync>(units: &[U], f: F) -> Acc {
     });
     let mut total = Acc::default();
     for a in accs {
-        merge_into(&mut total, a);
+        merge_into(db, &mut total, a);
     }
     total
 }
 
-fn merge_into(total: &mut Acc, o: Acc) {
+fn merge_into(db: &Db, total: &mut Acc, o: Acc) {
     total.evals += o.evals;
     total.calls += o.calls;
     total.nontrivial += o.nontrivial;
@@ -352,7 +364,7 @@ fn merge_into(total: &mut Acc, o: Acc) {
             }
             Some(e) => {
                 e.count += g.count;
-                if g.best < e.best {
+                if better(db, g.best, e.best) {
                     e.best = g.best;
                 }
             }
@@ -581,7 +593,7 @@ fn main() {
     {
         let t0 = Instant::now();
         let ids: Vec<u32> = (0..n_texts as u32).collect();
-        let mut acc = run_units(&ids, |&i, acc| {
+        let mut acc = run_units(&db, &ids, |&i, acc| {
             check_pair(&db, i, i, acc);
             let tm = db.texts[i as usize].text_mask;
             if tm != 0 {
@@ -615,7 +627,7 @@ fn main() {
                 units.push((b as u32, r as u32));
             }
         }
-        let acc = run_units(&units, |&(b, r), acc| {
+        let acc = run_units(&db, &units, |&(b, r), acc| {
             let ts = &db.buckets[b as usize].texts;
             let i = ts[r as usize];
             for &j in &ts[r as usize + 1..] {
@@ -660,7 +672,7 @@ fn main() {
                 }
             }
         }
-        let acc = run_units(&units, |&(c, x, r), acc| {
+        let acc = run_units(&db, &units, |&(c, x, r), acc| {
             let bs = &classes[c as usize];
             let i = db.buckets[bs[x as usize] as usize].texts[r as usize];
             for &b2 in &bs[x as usize + 1..] {
@@ -697,7 +709,7 @@ fn main() {
         let t0 = Instant::now();
         let units: Vec<u32> = (0..primary.len() as u32).collect();
         let bad_key = std::sync::atomic::AtomicU64::new(0);
-        let acc = run_units(&units, |&x, acc| {
+        let acc = run_units(&db, &units, |&x, acc| {
             let bx = &db.buckets[primary[x as usize] as usize];
             for &b2 in &primary[x as usize + 1..] {
                 let by = &db.buckets[b2 as usize];
@@ -735,7 +747,7 @@ fn main() {
         let t0 = Instant::now();
         let n_mut: usize = mutation_sets.iter().map(|m| m.1.len()).sum();
         let sib_cap = ctx.tier.pick(48usize, 96usize);
-        let acc = run_units(&mutation_sets, |(base, ms), acc| {
+        let acc = run_units(&db, &mutation_sets, |(base, ms), acc| {
             for &m in ms {
                 let (i, j) = if *base < m { (*base, m) } else { (m, *base) };
                 check_pair(&db, i, j, acc);
@@ -772,7 +784,10 @@ fn main() {
         let invalid_all: Vec<u32> = (0..n_texts as u32).filter(|&i| !matches!(db.texts[i as usize].class, Class::Valid(_))).collect();
         let mut inv_pool: Vec<u32> = handwritten.clone();
         let mut sorted_inv = invalid_all.clone();
-        sorted_inv.sort_by_key(|&i| (db.texts[i as usize].rank, db.texts[i as usize].s.len(), i));
+        sorted_inv.sort_by(|&x, &y| {
+            let k = |i: u32| (db.texts[i as usize].rank, db.texts[i as usize].s.len(), db.texts[i as usize].s.as_str());
+            k(x).cmp(&k(y))
+        });
         for &i in sorted_inv.iter() {
             if inv_pool.len() >= inv_cap {
                 break;
@@ -790,7 +805,7 @@ fn main() {
         for x in 0..handwritten.len() {
             units.push((1, x as u32));
         }
-        let acc = run_units(&units, |&(kind, x), acc| {
+        let acc = run_units(&db, &units, |&(kind, x), acc| {
             if kind == 0 {
                 let i = inv_pool[x as usize];
                 for &j in &inv_pool[x as usize + 1..] {
@@ -867,7 +882,7 @@ fn main() {
                 acc.nontrivial += 1;
             }
         };
-        let acc = run_units(&units, |u, acc| match *u {
+        let acc = run_units(&db, &units, |u, acc| match *u {
             U::Within(b, r) => {
                 let ts = &db.buckets[b as usize].texts;
                 for &j in ts.iter().take(kq).skip(r as usize + 1) {
@@ -914,7 +929,10 @@ fn main() {
     let mut seen: HashMap<(u8, u32, u32), ()> = HashMap::new();
     for (l, (_, groups)) in leg_groups.iter().enumerate() {
         let mut gs: Vec<(&(u8, u32, u32), &Group)> = groups.iter().collect();
-        gs.sort_by_key(|(k, g)| (k.0, g.best, k.1, k.2));
+        gs.sort_by(|(k1, g1), (k2, g2)| {
+            let t = |i: u32| db.texts[i as usize].s.as_str();
+            (k1.0, g1.best.0, g1.best.1, t(g1.best.2), t(g1.best.3)).cmp(&(k2.0, g2.best.0, g2.best.1, t(g2.best.2), t(g2.best.3)))
+        });
         for (k, g) in gs {
             if seen.insert((k.0, g.best.2, g.best.3), ()).is_none() {
                 todo.push((l, k.0, g.best.2, g.best.3, g.count, k.1, k.2));
@@ -925,7 +943,13 @@ fn main() {
     let raw_failures: u64 = todo.iter().map(|t| t.4).sum();
     let reduce_cap = ctx.tier.pick(60000usize, 200000usize);
     // smallest examples first, so that a cap (if ever hit) drops the largest
-    todo.sort_by_key(|t| (t.1, db.texts[t.2 as usize].rank + db.texts[t.3 as usize].rank, db.texts[t.2 as usize].s.len() + db.texts[t.3 as usize].s.len(), t.2, t.3));
+    todo.sort_by(|x, y| {
+        let k = |t: &(usize, u8, u32, u32, u64, u32, u32)| {
+            let (a, b) = (&db.texts[t.2 as usize], &db.texts[t.3 as usize]);
+            (t.1, a.rank + b.rank, a.s.len() + b.s.len(), a.s.clone(), b.s.clone())
+        };
+        k(x).cmp(&k(y))
+    });
     let memo: Memo = Default::default();
     let reduced: Vec<(String, String, u64)> = par_map(&todo, ncpu(), |n, t| {
         let (a, b) = (&db.texts[t.2 as usize].s, &db.texts[t.3 as usize].s);
